@@ -1,6 +1,30 @@
 SPEC = {
     "id": "C12",
     "components": [
+        {"comp": "cc_newreno", "module": "QV.Model.NewReno", "quick": 600, "thorough": 15000},
+        {"comp": "cc_cubic", "module": "QV.Model.Cubic", "quick": 600, "thorough": 15000},
+        {"comp": "cc_bbr", "module": "QV.Model.Bbr", "quick": 480, "thorough": 8000},
+        {"comp": "sent_packets", "module": "QV.Model.SentPackets", "quick": 800, "thorough": 20000},
+        {"comp": "inflight", "module": "QV.Model.InFlight", "quick": 800, "thorough": 20000},
         {"comp": "sim_c12", "module": "QV.Sys.MonC12", "quick": 60, "thorough": 1500},
     ],
+    "assumptions": [
+        "float arithmetic of the controllers is not modelled: every float-derived quantity is an oracle value; the theorems quantify over all oracle values, the correspondence reads them back from the implementation (relational tie for Cubic and BBR; exact IEEE f32 result for NewReno's default factor 0.5)",
+        "BBR's pacing gain cycle (random offset) and pacing rate are not modelled: they do not feed back into window()",
+        "in_flight_is_sum is stated for packets stamped with the path's own generation (as PacketBuilder stamps them); packets of an older path generation are not debited by design and are outside the sum",
+    ],
+}
+
+MANIFEST = {
+    "text": ("Component level. Proved in Coq: controller_floor for NewReno, Cubic and BBR (for all call histories with "
+             "arbitrary u64 arguments and arbitrary outcomes of the float computations, window() >= 2 * current MTU given "
+             "an initial window of at least that; BBR for the repaired on_mtu_update, the unrepaired one is refuted by a "
+             "vm_compute witness that was replayed on the real code, DESIGN F7); in_flight_is_sum (bytes in flight and the "
+             "ack-eliciting count equal the sums over the tracked packets in every reachable state, the debit never "
+             "underflows), all_acked_implies_zero and leaves_once for every history of sent/acked/lost/abandoned/discard. "
+             "The models are tied to the real code on every run: NewReno, SentPackets and the PathData/PacketSpace ledger "
+             "exactly, Cubic and BBR relationally. Not covered at this level: window_respected (send gate), ack_check_sound, "
+             "fifo_no_loss (simulator level)."),
+    "note": ("Trusted: Coq kernel + vm_compute; hand-written models whose agreement with the code is sampled, not proved; "
+             "hook interpreters (incl. the read-only probe Bbr::verif_state); python driver. No axioms."),
 }
